@@ -86,7 +86,13 @@ func (h *probeHandler) ServeHTTP(w http.ResponseWriter, req *http.Request, _ cad
 		fmt.Fprintf(w, "gen=%d tok=%s\n", h.Gen, tok)
 		return nil
 	}
-	fmt.Fprintf(w, "gen=%d\n", h.Gen)
+	sd := 0
+	if repl, ok := req.Context().Value(caddy.ReplacerCtxKey).(*caddy.Replacer); ok {
+		if v, _ := repl.Get("http.shutting_down"); v == true {
+			sd = 1 // a shutdown of this server has been scheduled (shutdown_delay is being enforced)
+		}
+	}
+	fmt.Fprintf(w, "gen=%d sd=%d\n", h.Gen, sd)
 	return nil
 }
 
